@@ -230,7 +230,9 @@ func sweeps() []sweep {
 		{"Tattach.uname", S, func(n int) p9p.Message { return p9p.MessageTattach{Fid: 1, Afid: 2, Uname: str(n), Aname: "a"} }},
 		{"Tattach.aname", S, func(n int) p9p.Message { return p9p.MessageTattach{Fid: 1, Afid: 2, Uname: "u", Aname: str(n)} }},
 		{"Rerror.ename", S, func(n int) p9p.Message { return p9p.MessageRerror{Ename: str(n)} }},
-		{"Twalk.wname", S, func(n int) p9p.Message { return p9p.MessageTwalk{Fid: 1, Newfid: 2, Wnames: []string{"a", str(n), "b"}} }},
+		{"Twalk.wname", S, func(n int) p9p.Message {
+			return p9p.MessageTwalk{Fid: 1, Newfid: 2, Wnames: []string{"a", str(n), "b"}}
+		}},
 		{"Twalk.nwname", S, func(n int) p9p.Message { return p9p.MessageTwalk{Fid: 1, Newfid: 2, Wnames: nameList(n, "ab")} }},
 		{"Rwalk.nwqid", S, func(n int) p9p.Message { return p9p.MessageRwalk{Qids: qidList(n)} }},
 		{"Tcreate.name", S, func(n int) p9p.Message { return p9p.MessageTcreate{Fid: 1, Name: str(n), Perm: 2, Mode: 3} }},
